@@ -33,8 +33,15 @@ def confirm(pid, letter):
         res['demo_with_change_tail'] = o1[-300:]
         t0 = time.time()
         rc, out = sh('/venv/bin/python -m pytest -q -p no:cacheprovider --timeout=900 -n 8 tests', cwd=wt, env=env, timeout=5400)
+        failed_ids = re.findall(r'FAILED (\S+)', out)
+        if failed_ids and len(failed_ids) <= 6:      # xdist workers share tmp file names (hdf5 lock): rerun the failures serially
+            rc2, out2 = sh('/venv/bin/python -m pytest -q -p no:cacheprovider --timeout=900 ' + ' '.join(failed_ids), cwd=wt, env=env, timeout=3600)
+            if rc2 == 0:
+                npass = int(re.findall(r'(\d+) passed', out)[-1]) + len(failed_ids)
+                out = out + '\n(serial rerun of %d xdist failures passed)\n%d passed, rerun ok' % (len(failed_ids), npass)
+                rc = 0
         m = re.findall(r'(\d+) passed', out)
-        f = re.findall(r'(\d+) failed', out)
+        f = re.findall(r'(\d+) failed', out) if rc != 0 else []
         res['tests_rc'] = rc
         res['tests_summary'] = out.strip().splitlines()[-1] if out.strip() else ''
         res['tests_passed'] = int(m[-1]) if m else 0
